@@ -53,7 +53,7 @@ theorem runQuery_mono {D : Disk} {n : Nat} {st : St} {q : Query} {a} {st' : St}
         have := scopeOf_mono D n _ _ _ _ hsc
         cases ot <;> (okinj h; exact hm.trans this)
 
-theorem runQuery_correct {E D : Disk} (hD : AbsDisk D) {n : Nat} {st : St} {q : Query} {a} {st' : St} (hc : Correct E st)
+theorem runQuery_correct {E D : Disk} {n : Nat} {st : St} {q : Query} {a} {st' : St} (hc : Correct E st)
     (h : runQuery D n st q = .ok (a, st')) (hag : AgreeOn st' D E) : Correct E st' := by
   cases q with
   | names m mn =>
@@ -63,8 +63,8 @@ theorem runQuery_correct {E D : Disk} (hD : AbsDisk D) {n : Nat} {st : St} {q : 
     | ok p =>
       obtain ⟨⟨tr, v⟩, st1⟩ := p
       rw [hf] at h; dsimp only at h
-      obtain ⟨hc1, _, hv1⟩ := follow_correct hD n _ _ _ _ _ hc rfl hf (hag.mono (attrList_mono D n _ _ _ _ h))
-      exact (attrList_correct hD hc1 hv1 h hag).1
+      obtain ⟨hc1, _, hv1⟩ := follow_correct n _ _ _ _ _ hc hf (hag.mono (attrList_mono D n _ _ _ _ h))
+      exact (attrList_correct hc1 hv1 h hag).1
   | attr m mn y =>
     rw [runQuery_attr] at h
     cases hch : attrChain D n st m mn y with
@@ -73,11 +73,11 @@ theorem runQuery_correct {E D : Disk} (hD : AbsDisk D) {n : Nat} {st : St} {q : 
       obtain ⟨r, st1⟩ := p
       rw [hch] at h
       cases r with
-      | none => okinj h; exact (attrChain_correct hD hc hch hag).1
+      | none => okinj h; exact (attrChain_correct hc hch hag).1
       | some r =>
         obtain ⟨tr, v⟩ := r; dsimp only at h
-        obtain ⟨hc1, _, hv1⟩ := attrChain_correct hD hc hch (hag.mono (attrList_mono D n _ _ _ _ h))
-        exact (attrList_correct hD hc1 hv1 h hag).1
+        obtain ⟨hc1, _, hv1⟩ := attrChain_correct hc hch (hag.mono (attrList_mono D n _ _ _ _ h))
+        exact (attrList_correct hc1 hv1 h hag).1
   | loc m mn y =>
     rw [runQuery_loc] at h
     cases hch : attrChain D n st m mn y with
@@ -86,8 +86,8 @@ theorem runQuery_correct {E D : Disk} (hD : AbsDisk D) {n : Nat} {st : St} {q : 
       obtain ⟨r, st1⟩ := p
       rw [hch] at h
       cases r with
-      | none => okinj h; exact (attrChain_correct hD hc hch hag).1
-      | some r => obtain ⟨tr, v⟩ := r; okinj h; exact (attrChain_correct hD hc hch hag).1
+      | none => okinj h; exact (attrChain_correct hc hch hag).1
+      | some r => obtain ⟨tr, v⟩ := r; okinj h; exact (attrChain_correct hc hch hag).1
   | lint m reads =>
     simp only [runQuery] at h
     rcases hgm : getModule D st m with ⟨b, st1⟩
@@ -105,7 +105,7 @@ theorem runQuery_correct {E D : Disk} (hD : AbsDisk D) {n : Nat} {st : St} {q : 
         subst hst
         obtain ⟨hc1, _, hin, _⟩ := getModule_correct hc hgm (hag.mono (scopeOf_mono D n _ _ _ _ hsc))
         obtain ⟨c, hcm⟩ := hin rfl
-        exact (scopeOf_correct E D hD n _ _ _ _ hc1 (by simp [hcm]) hsc hag).1
+        exact (scopeOf_correct E D n _ _ _ _ hc1 (by simp [hcm]) hsc hag).1
 
 theorem getModule_agree {D : Disk} {st1 st2 : St} {m : Mod} {b1 b2 s1 s2} (hc1 : Correct D st1)
     (hc2 : Correct D st2) (h1 : getModule D st1 m = (b1, s1)) (h2 : getModule D st2 m = (b2, s2)) : b1 = b2 := by
@@ -119,7 +119,7 @@ theorem getModule_agree {D : Disk} {st1 st2 : St} {m : Mod} {b1 b2 s1 s2} (hc1 :
     obtain ⟨f, hf, _⟩ := c1.valid m c hcm
     rw [hno2 rfl] at hf; cases hf
 
-theorem runQuery_agree {D : Disk} (hD : AbsDisk D) {n1 n2 : Nat} {st1 st2 : St} {q : Query} {a1 a2} {s1 s2 : St}
+theorem runQuery_agree {D : Disk} {n1 n2 : Nat} {st1 st2 : St} {q : Query} {a1 a2} {s1 s2 : St}
     (hc1 : Correct D st1) (hc2 : Correct D st2)
     (h1 : runQuery D n1 st1 q = .ok (a1, s1)) (h2 : runQuery D n2 st2 q = .ok (a2, s2)) : a1 = a2 := by
   cases q with
@@ -134,12 +134,12 @@ theorem runQuery_agree {D : Disk} (hD : AbsDisk D) {n1 n2 : Nat} {st1 st2 : St} 
         obtain ⟨⟨tr1, v1⟩, t1⟩ := p1
         obtain ⟨⟨tr2, v2⟩, t2⟩ := p2
         rw [hf1] at h1; rw [hf2] at h2; dsimp only at h1 h2
-        have hv := follow_agree hD _ _ _ _ _ _ _ _ _ _ hc1 hc2 rfl hf1 hf2
+        have hv := follow_agree _ _ _ _ _ _ _ _ _ _ hc1 hc2 hf1 hf2
         simp only [Prod.mk.injEq] at hv
         obtain ⟨_, hv⟩ := hv; subst hv
-        obtain ⟨hc1', _, hv1⟩ := follow_correct hD n1 _ _ _ _ _ hc1 rfl hf1 (agreeOn_refl _ _)
-        obtain ⟨hc2', _, hv2⟩ := follow_correct hD n2 _ _ _ _ _ hc2 rfl hf2 (agreeOn_refl _ _)
-        exact attrList_agree hD hc1' hc2' hv1 hv2 h1 h2
+        obtain ⟨hc1', _, hv1⟩ := follow_correct n1 _ _ _ _ _ hc1 hf1 (agreeOn_refl _ _)
+        obtain ⟨hc2', _, hv2⟩ := follow_correct n2 _ _ _ _ _ hc2 hf2 (agreeOn_refl _ _)
+        exact attrList_agree hc1' hc2' hv1 hv2 h1 h2
   | attr m mn y =>
     rw [runQuery_attr] at h1 h2
     cases hch1 : attrChain D n1 st1 m mn y with
@@ -151,13 +151,13 @@ theorem runQuery_agree {D : Disk} (hD : AbsDisk D) {n1 n2 : Nat} {st1 st2 : St} 
         obtain ⟨r1, t1⟩ := p1
         obtain ⟨r2, t2⟩ := p2
         rw [hch1] at h1; rw [hch2] at h2
-        have hr := attrChain_agree hD hc1 hc2 hch1 hch2
+        have hr := attrChain_agree hc1 hc2 hch1 hch2
         subst hr
-        obtain ⟨hc1', _, hv1⟩ := attrChain_correct hD hc1 hch1 (agreeOn_refl _ _)
-        obtain ⟨hc2', _, hv2⟩ := attrChain_correct hD hc2 hch2 (agreeOn_refl _ _)
+        obtain ⟨hc1', _, hv1⟩ := attrChain_correct hc1 hch1 (agreeOn_refl _ _)
+        obtain ⟨hc2', _, hv2⟩ := attrChain_correct hc2 hch2 (agreeOn_refl _ _)
         cases r1 with
         | none => simp only [Except.ok.injEq, Prod.mk.injEq] at h1 h2; rw [← h1.1, ← h2.1]
-        | some r => obtain ⟨tr, v⟩ := r; dsimp only at h1 h2; exact attrList_agree hD hc1' hc2' hv1 hv2 h1 h2
+        | some r => obtain ⟨tr, v⟩ := r; dsimp only at h1 h2; exact attrList_agree hc1' hc2' hv1 hv2 h1 h2
   | loc m mn y =>
     rw [runQuery_loc] at h1 h2
     cases hch1 : attrChain D n1 st1 m mn y with
@@ -169,7 +169,7 @@ theorem runQuery_agree {D : Disk} (hD : AbsDisk D) {n1 n2 : Nat} {st1 st2 : St} 
         obtain ⟨r1, t1⟩ := p1
         obtain ⟨r2, t2⟩ := p2
         rw [hch1] at h1; rw [hch2] at h2
-        have hr := attrChain_agree hD hc1 hc2 hch1 hch2
+        have hr := attrChain_agree hc1 hc2 hch1 hch2
         subst hr
         cases r1 with
         | none => simp only [Except.ok.injEq, Prod.mk.injEq] at h1 h2; rw [← h1.1, ← h2.1]
@@ -200,8 +200,8 @@ theorem runQuery_agree {D : Disk} (hD : AbsDisk D) {n1 n2 : Nat} {st1 st2 : St} 
           obtain ⟨ot1, u1⟩ := p1
           obtain ⟨ot2, u2⟩ := p2
           rw [hsc1] at h1; rw [hsc2] at h2
-          obtain ⟨_, _, x1, hot1, hev1, _⟩ := scopeOf_correct D D hD n1 _ _ _ _ hc1' (by simp [hcm1]) hsc1 (agreeOn_refl _ _)
-          obtain ⟨_, _, x2, hot2, hev2, _⟩ := scopeOf_correct D D hD n2 _ _ _ _ hc2' (by simp [hcm2]) hsc2 (agreeOn_refl _ _)
+          obtain ⟨_, _, x1, hot1, hev1⟩ := scopeOf_correct D D n1 _ _ _ _ hc1' (by simp [hcm1]) hsc1 (agreeOn_refl _ _)
+          obtain ⟨_, _, x2, hot2, hev2⟩ := scopeOf_correct D D n2 _ _ _ _ hc2' (by simp [hcm2]) hsc2 (agreeOn_refl _ _)
           subst hot1; subst hot2
           have := hev1.unique hev2
           simp only [Option.some.injEq] at this; subst this
